@@ -22,12 +22,12 @@ theorem new_default (A : View α) (N : Nat) (al : α) : new A N = with_alpha A N
 
 @[simp] def abs (A : View α) (s : State α A.σ) : A.σ × EmaState α := (s.view, { lastEma := s.last_ema, out := s.out, n := s.n_observed_values })
 
-theorem upd_eq (A : View α)  (s : State α A.σ) (x : α)  :
+theorem upd_eq (A : View α)  (s : State α A.σ) (x : α)   :
     (update A s x).map (abs A) = (wrap A (emaCore s.window_len s.alpha)).upd (abs A s) x := by
   simp only [update, wrap, mapV, binop, emaCore, abs]; gen_tie
-theorem upd_cfg (A : View α) (s s' : State α A.σ) (x : α) : update A s x = .ok s' → s'.window_len = s.window_len ∧ s'.alpha = s.alpha := by
+theorem upd_cfg (A : View α) (s s' : State α A.σ) (x : α)  : update A s x = .ok s' → s'.window_len = s.window_len ∧ s'.alpha = s.alpha := by
   simp only [update, emaCore]; gen_tie
-theorem last_eq (A : View α)  (s : State α A.σ)  : last A s = (wrap A (emaCore s.window_len s.alpha)).last (abs A s) := by
+theorem last_eq (A : View α)  (s : State α A.σ)   : last A s = (wrap A (emaCore s.window_len s.alpha)).last (abs A s) := by
   simp only [last, wrap, mapV, binop, emaCore, abs]; gen_tie
 
 def sim (A : View α) (N : Nat) (al : α)  : Sim (mkView (s0 A N al) (update A) (last A)) (wrap A (emaCore N al)) where
@@ -37,15 +37,15 @@ def sim (A : View α) (N : Nat) (al : α)  : Sim (mkView (s0 A N al) (update A) 
   init_abs := by rfl
   upd := fun (s : State α A.σ) x hs => by
     obtain ⟨h0, h1⟩ := hs
-    have := upd_eq A s x  
+    have := upd_eq A s x   
     (try rw [h0] at this); (try rw [h1] at this); exact this
   upd_cfg := fun (s : State α A.σ) x s' hs h => by
     obtain ⟨h0, h1⟩ := hs
-    have := upd_cfg A s s' x h
+    have := upd_cfg A s s' x  h
     simp_all
   last := fun (s : State α A.σ) hs => by
     obtain ⟨h0, h1⟩ := hs
-    have := last_eq A s  
+    have := last_eq A s   
     (try rw [h0] at this); (try rw [h1] at this); exact this
 
 /-- the Rust text of `Ema`, as translated, and the model agree on every input: same answers, same panics -/
